@@ -45,12 +45,53 @@ def segments(body, start, cuts, region, max_paths=2000):
     return out
 
 
+class SegExprs(PathExprs):
+    """PathExprs with scalar replacement of array elements: a write `a[i] = v` whose index is a
+    constant on this path defines the element cell (a, i); later reads `a[i]` on the path see v.
+    (An array of two accumulators indexed by a function of the colour is two accumulators on each
+    colour trace.)  A write with a non-constant index makes every element of `a` unknown."""
+
+    def __init__(self, body):
+        super().__init__(body)
+        self.elems = {}        # (local, k) -> value
+        self.blurred = set()   # locals written at a non-constant index
+
+    def place(self, p, loc):
+        proj = p["proj"]
+        l = p["local"]
+        if proj and proj[0]["k"] == "index" and l not in self.env and (l in self.blurred or any(k[0] == l for k in self.elems)):
+            idx = self.local(proj[0]["local"], loc)
+            if l in self.blurred or not (idx[0] == "const" and isinstance(idx[1], int)):
+                e = ("opaque", "element of _%d after a write at an unknown index" % l)
+            elif (l, idx[1]) in self.elems:
+                e = self.elems[(l, idx[1])]
+            else:
+                e = ("index", self.local(l, loc), idx)
+            for el in proj[1:]:
+                k = el["k"]
+                if k == "deref":
+                    from .expr import mk_deref
+                    e = mk_deref(e)
+                elif k == "field":
+                    e = self._field(e, el)
+                elif k == "index":
+                    e = ("index", e, self.local(el["local"], loc))
+                elif k == "cindex":
+                    e = ("cidx", e, el["offset"])
+                elif k == "downcast":
+                    e = ("downcast", e, el["variant"])
+            return e
+        return super().place(p, loc)
+
+
 def eval_segment(body, blocks, end=None):
     """Symbolic effect of one segment.  Returns (env, conds):
     env[local] = value at the end of the segment of every local assigned as a whole on it;
+    env[('elem', local, k)] = value of element k of an array local written as `local[i] = v` with i
+    constant on the path (k is None, value opaque, if some index was not constant);
     conds = [(discr_expr, taken_values, is_otherwise, listed_values)] for every switch passed,
     including the one whose edge to `end` closes the segment."""
-    px = PathExprs(body)
+    px = SegExprs(body)
     conds = []
     n = len(blocks)
     for k, bb in enumerate(blocks):
@@ -59,11 +100,23 @@ def eval_segment(body, blocks, end=None):
                 continue
             p = st["place"]
             if p["proj"]:
-                # callers that care reject partial writes in the region up front (see partial_writes)
-                if p["local"] in px.env and not (p["proj"][0]["k"] == "deref"):
-                    px.env[p["local"]] = ("opaque", "partially assigned")
+                l = p["local"]
+                if len(p["proj"]) == 1 and p["proj"][0]["k"] == "index" and l not in px.env:
+                    idx = px.local(p["proj"][0]["local"], (bb, i))
+                    v = px.rvalue(st["rv"], (bb, i))
+                    if idx[0] == "const" and isinstance(idx[1], int) and l not in px.blurred:
+                        px.elems[(l, idx[1])] = v
+                    else:
+                        px.blurred.add(l)
+                    continue
+                # callers that care reject other partial writes in the region up front (see indirect_writes)
+                if l in px.env and not (p["proj"][0]["k"] == "deref"):
+                    px.env[l] = ("opaque", "partially assigned")
                 continue
             px.env[p["local"]] = px.rvalue(st["rv"], (bb, i))
+            for key in [key for key in px.elems if key[0] == p["local"]]:
+                del px.elems[key]
+            px.blurred.discard(p["local"])
         t = body.term(bb)
         loc = body.term_loc(bb)
         if t["k"] == "call" and not t["dest"]["proj"]:
@@ -75,7 +128,44 @@ def eval_segment(body, blocks, end=None):
             d = px.operand(t["discr"], loc)
             vals = [v for v, tg in t["cases"] if tg == nxt]
             conds.append((d, vals, t["otherwise"] == nxt, [v for v, _ in t["cases"]]))
-    return px.env, conds
+    env = dict(px.env)
+    for (l, kk), v in px.elems.items():
+        env[("elem", l, kk)] = v
+    for l in px.blurred:
+        env[("elem", l, None)] = ("opaque", "element written at an unknown index")
+    return env, conds
+
+
+def cell_undef(c):
+    """Expression a segment reads for cell c (a local, or ('elem', local, k)) at its cut point."""
+    if isinstance(c, int):
+        return undef(c)
+    return ("index", undef(c[1]), ("const", c[2]))
+
+
+def undef_cells(e):
+    """Cells an expression of a segment reads from the state at the cut point: locals, and array
+    elements read at a constant index (`a[1]` reads ('elem', a, 1), not all of a)."""
+    out = set()
+
+    def walk(x):
+        if not isinstance(x, tuple) or not x:
+            return
+        if x[0] == "index" and len(x) == 3 and x[1][0] == "opaque" and str(x[1][1]).startswith("undef _") and x[2][0] == "const" and isinstance(x[2][1], int):
+            out.add(("elem", int(x[1][1][len("undef _"):]), x[2][1]))
+            return
+        if x[0] == "opaque" and isinstance(x[1], str) and x[1].startswith("undef _"):
+            out.add(int(x[1][len("undef _"):]))
+            return
+        for y in x[1:]:
+            if isinstance(y, tuple):
+                if y and isinstance(y[0], str):
+                    walk(y)
+                else:
+                    for z in y:
+                        walk(z)
+    walk(e)
+    return out
 
 
 def undef_locals(e):
